@@ -1,7 +1,7 @@
 """C07 — Value order/equality/hash laws and the algebra of the collection filters (DESIGN.md §3 C07)."""
 import json, os, collections
 
-READY = False
+READY = True
 
 META = {
     "technique": "Lean 4 proof (Value::cmp refines compare on an explicit linearly ordered key; ==/Hash consistency; algebra of sort/unique/groupby/batch/slice/reverse/min/max for every list) + differential correspondence on all ordered pairs of a boundary value zoo under both map implementations",
@@ -261,21 +261,23 @@ def check_mode(r, mode, exe):
             want = "L" if rank[i] < rank[j] else "G" if rank[i] > rank[j] else "E"
             if M[(i, j)][0] != want:
                 bad.append((i, j))
+    def viol(x, y, z):
+        cxy, cyz, cxz = M[(x, y)][0], M[(y, z)][0], M[(x, z)][0]
+        if cxy in "LE" and cyz in "LE":
+            return cxz != ("E" if cxy == "E" and cyz == "E" else "L")
+        return False
     for (i, j) in bad[:50]:
-        # find a witness triple
+        # find a witness triple (some ordering of i, j and a third value breaks transitivity)
         wit = None
-        cij = M[(i, j)][0]
         for k in idx:
-            cik, ckj = M[(i, k)][0], M[(k, j)][0]
-            le = lambda x: x in "LE"
-            if (le(cik) and le(ckj) and not le(cij)) or (le(REV[cik]) and le(REV[ckj]) and not le(REV[cij])) \
-               or (cik == "E" and ckj == "E" and cij != "E") or (le(cik) and le(ckj) and cij == "E" and "L" in (cik, ckj)):
+            if any(viol(*p) for p in ((i, j, k), (i, k, j), (j, i, k), (j, k, i), (k, i, j), (k, j, i))):
                 wit = k
                 break
         ks = sorted({kind[i], kind[j]} | ({kind[wit]} if wit is not None else set()))
-        r.oracle_failure(f"triple {vals[i]} {vals[j]} {vals[wit] if wit is not None else '?'}",
-                         f"[{feats}] cmp is not transitive: cmp(a,b)={cij}" + (f", cmp(a,c)={M[(i, wit)][0]}, cmp(c,b)={M[(wit, j)][0]}" if wit is not None else ""),
-                         "trans:" + "~".join(ks))
+        what = f"[{feats}] cmp is not transitive: cmp(a,b)={M[(i, j)][0]}"
+        if wit is not None:
+            what += f", cmp(a,c)={M[(i, wit)][0]}, cmp(c,b)={M[(wit, j)][0]}, cmp(b,c)={M[(j, wit)][0]}"
+        r.oracle_failure(f"triple {vals[i]} {vals[j]} {vals[wit] if wit is not None else '?'}", what, "trans:" + "~".join(ks))
     r.count(("rank-check", mode), True, n=len(idx) ** 2)
 
     # ---------------------------------------------------------------- template operators
@@ -293,13 +295,16 @@ def check_mode(r, mode, exe):
                 r.oracle_failure(pv(i, j), f"[{feats}] template `{name}` panics", f"panic:tpl-{name}:{fd}")
             elif exp[k] is not None and t[k] != exp[k]:
                 r.oracle_failure(pv(i, j), f"[{feats}] template `{name}` gives {t[k]} but Value::cmp={c}, ==:{e}", f"tpl-{name}:{fd}")
+        # a key that is == to the stored key but hashes differently is found or not depending on the
+        # hash table layout (random per map): the root cause is reported as lookup-vs-eq
+        lsite = "lookup-vs-eq" if (e == "1" and h == "0") else "in-vs-lookup"
         if t[3] != t[4]:
-            r.oracle_failure(pv(i, j), f"[{feats}] `a in {{b:1}}` is {t[3]} but `{{b:1}}[a] is defined` is {t[4]}", f"in-vs-lookup:{fd}")
+            r.oracle_failure(pv(i, j), f"[{feats}] `a in {{b:1}}` is {t[3]} but `{{b:1}}[a] is defined` is {t[4]}", f"{lsite}:{fd}")
         if not (nan[i] or nan[j]) and t[4] != e:
             r.oracle_failure(pv(i, j), f"[{feats}] `{{b:1}}[a] is defined` is {t[4]} but (a==b)={e}", f"lookup-vs-eq:{fd}")
         # the same with a second entry in the map (an IndexMap hashes only when it has more than one entry)
         if t[7] != t[8]:
-            r.oracle_failure(pv(i, j), f"[{feats}] `a in {{b:1,S:2}}` is {t[7]} but `{{b:1,S:2}}[a] is defined` is {t[8]}", f"in-vs-lookup:{fd}")
+            r.oracle_failure(pv(i, j), f"[{feats}] `a in {{b:1,S:2}}` is {t[7]} but `{{b:1,S:2}}[a] is defined` is {t[8]}", f"{lsite}:{fd}")
         if not (nan[i] or nan[j]) and t[8] != e:
             r.oracle_failure(pv(i, j), f"[{feats}] `{{b:1,S:2}}[a] is defined` is {t[8]} but (a==b)={e}", f"lookup-vs-eq:{fd}")
     r.sample({"mode": mode, "pair": [vals[idx[5]], vals[idx[40]]], "cmp eq samehash": M[(idx[5], idx[40])]})
